@@ -111,6 +111,50 @@ def main(ctx: Ctx):
                     list(w.results_iter())
                 chain.append((seen_init, w.user_state))
                 state = w.user_state
+            # the state message may follow the result after any delay (a big state takes its time to pickle): no timeout may
+            # be put on the parent's connection in between. Timeouts set on sockets during a remote worker's life are recorded;
+            # a finite one is exceeded by a state that takes longer to serialise (thorough: 7 s in any case)
+            if kind == 'remote':
+                import socket as _socket
+                seen = []
+                orig = _socket.socket.settimeout
+
+                def rec(self_, v, _o=orig):
+                    if v is not None:
+                        seen.append(v)
+                    return _o(self_, v)
+                _socket.socket.settimeout = rec
+                try:
+                    sess.write_conf(None)
+                    w4 = cls(TG.t_sslowstate, init_state=10, args=[0.2], **kw)
+                    if persistent:
+                        w4.enqueue(0.2)
+                    watchdog(lambda: w4.wait(10), 20)
+                finally:
+                    _socket.socket.settimeout = orig
+                final = w4.user_state
+                ctx.case(('slow-state', prog), True, sample={'case': 'state message follows the result after a delay', 'prog': prog, 'timeouts_set_on_sockets': seen, 'parent_sees': repr(final)})
+                delay = max([7.0 if T else 0.0] + [v + 1.5 for v in seen if v <= 25])
+                if final != {'last': 12, 'pickling_takes': 0.2}:
+                    ctx.fail(f'final-state-not-synchronised:{kind}:slow-state', f'{prog}: the work assigned a state that takes 0.2 s to pickle; the parent sees {final!r}', {'prog': prog, 'scenario': 'slow-state', 'seconds': 0.2})
+                elif delay:
+                    sess.write_conf(None)
+                    w5 = cls(TG.t_sslowstate, init_state=10, args=[delay], **kw)
+                    if persistent:
+                        w5.enqueue(delay)
+                    watchdog(lambda: w5.wait(delay + 15), delay + 30)
+                    final = w5.user_state
+                    if final != {'last': 12, 'pickling_takes': delay}:
+                        ctx.fail(f'final-state-not-synchronised:{kind}:slow-state', f'{prog}: the work assigned a state that takes {delay:.1f} s to pickle (timeouts set on the connection: {seen}); after the end the parent sees {final!r}',
+                                 {'prog': prog, 'scenario': 'slow-state', 'seconds': delay})
+                    try:
+                        w5.terminate(1)
+                    except Exception:
+                        pass
+                try:
+                    w4.terminate(1)
+                except Exception:
+                    pass
             # the last value assigned in the child is a falsy one: it is a value like any other
             if kind != 'thread':
                 for last in (None, 0, [], ''):
